@@ -24,7 +24,7 @@ ASSUMPTIONS = [
     "and place some task modules in sub-directories that carry a pyproject.toml without a pytask section",
 ]
 EDITS = ["write", "write", "revert", "rewrite_same", "touch", "delete_input", "bump", "revert_module", "tamper", "delete_product",
-         "rewire", "add_task", "remove_task"]
+         "rewire", "add_task", "remove_task", "flag", "flag", "swap", "swap"]
 CFGS = [{}, {}, {}, {"force": True}, {"dry": True}, {"maxfail": 1}, {"k": "task_t00x"}, {"k": "task_t01x or task_t02x"}, {"m": "markone"}]
 
 
@@ -131,7 +131,7 @@ def histories(ctx):
     hs = []
     for i in range(ctx.scale(70, 800)):
         spec = engine.gen_spec(rng, nt=(2, 7), after_p=0.2, after_needs_prods=True, user_markers=True, marks=(("skip", 0.05),),
-                               link_p=0.3, dirprod_p=0.3, hashed_p=0.25, bag_p=0.3, subdir_p=0.3)
+                               link_p=0.3, dirprod_p=0.3, hashed_p=0.25, bag_p=0.3, subdir_p=0.3, pygroup_p=0.4)
         hs.append(histgen.random_history(rng, spec, rng.randint(4, 10), EDITS, CFGS, final_build={}))
     return hs
 
